@@ -420,3 +420,70 @@ def impl_fin_view(g, pre, post):
     fp = sorted(post["fp"] - pre["fp"])
     j = lambda l: ",".join(str(x) for x in l) or "-"
     return "chain=%s blocks=%s final=%s tips=%s fp=%s" % (j([num(x) for x in chain]), j(ids), j(fin), j(tips), j(fp))
+
+
+# ---------------------------------------------------------------------------
+# C10 direct dirty oracle: with a save after every operation, the blocks whose PERSISTED projection differs
+# between two consecutive observations must all be in the dirty set read right before the save
+_PROJ = {
+    "ALT": _re.compile(r"^ALT_(a\d+)_h=(\d+)_st=(\d+)(?:_D)?(?:_F)?_pl=(\[[^\]]*\])_ce=(\[[^\]]*\])"),
+    "VBK": _re.compile(r"^VBK_(v\d+)_h=(\d+)_st=(\d+)(?:_D)?(?:_F)?_rc=(\d+)_vtbs=(\[[^\]]*\])_ce=(\[[^\]]*\])"),
+    "BTC": _re.compile(r"^BTC_(b\d+)_h=(\d+)_st=(\d+)(?:_D)?(?:_F)?_refs=(\[[^\]]*\])"),
+}
+
+
+def projections(xdump):
+    """{block id: persisted projection} for all three trees from an xdump"""
+    out = {}
+    for l in xdump.split(";"):
+        rx = _PROJ.get(l[:3])
+        if rx:
+            m = rx.match(l)
+            if m:
+                out[m.group(1)] = m.groups()[1:]
+    return out
+
+
+def parse_dirty(s):
+    """'A:a1,a2x V:- B:b1' -> set of ids (the x suffix marks a deleted block)"""
+    out = set()
+    for part in s.split():
+        if ":" in part:
+            for x in part.split(":", 1)[1].split(","):
+                if x and x != "-":
+                    out.add(x.rstrip("x"))
+    return out
+
+
+def emit_dirty_probe(sc, ops, tag, name="D"):
+    sc.add("inst %s" % name)
+    sc.add("on %s save" % name)
+    prev = sc.add("on %s xdump" % name, (tag, "probe0"))
+    for i, w in enumerate(ops, 1):
+        sc.add("on %s %s" % (name, " ".join(w)), (tag, "probeop", i, w))
+        d = sc.add("on %s dirty" % name)
+        sc.add("on %s save" % name)
+        cur = sc.add("on %s xdump" % name, (tag, "probe", i, w, prev, d))
+        prev = cur
+    sc.add("drop %s" % name)
+
+
+def judge_dirty_probe(sc, res):
+    """-> [(tagbase, op position, op, ids changed but not dirty)]"""
+    bad = []
+    n = 0
+    for i, tag in sc.meta.items():
+        if tag[1] != "probe":
+            continue
+        prev, d = res.get(tag[4]), res.get(tag[5])
+        cur = res.get(i)
+        if prev is None or cur is None or d is None or "DEAD" in (prev, cur, d):
+            continue
+        a, b = projections(prev), projections(cur)
+        changed = {k for k in set(a) | set(b) if a.get(k) != b.get(k)}
+        dirty = parse_dirty(d)
+        n += 1
+        miss = sorted(changed - dirty)
+        if miss:
+            bad.append((tag[0], tag[2], tag[3], miss, {k: (a.get(k), b.get(k)) for k in miss[:3]}))
+    return bad, n
